@@ -198,7 +198,7 @@ class Outcome:
 class StepReading:
     """effect list of one traced step, ready to be evaluated at grid points"""
 
-    def __init__(self, tracer, ret, strip_loop=None, what="step", pure=()):
+    def __init__(self, tracer, ret, strip_loop=None, what="step", pure=(), ignore=None):
         self.what = what
         self.ret = ret
         self.loop_fields = dict(getattr(tracer, "loop_fields", {}))
@@ -207,11 +207,17 @@ class StepReading:
         for e in tracer.events:
             if e.callee in ("<assign>", "<return>", "<try>", "<break>", "<continue>", "<panic>"):
                 items.append({"seq": e.seq, "kind": e.callee, "args": list(e.args), "loops": list(e.loops), "guards": list(e.guards), "node": e.node})
+            elif not e.callee.startswith("<") and e.callee.rsplit("::", 1)[-1] not in pure:
+                # a call the tracer was asked to record (plain Tracer: the calls matching its pattern)
+                items.append({"seq": e.seq, "kind": "call", "name": e.callee.rsplit("::", 1)[-1], "args": list(e.args), "loops": list(e.loops),
+                              "guards": list(e.guards), "node": e.node})
         for s in getattr(tracer, "sites", []):
             if s["kind"] == "contract" and s["detail"].rsplit("::", 1)[-1] not in pure:   # pure queries are not effects
                 items.append({"seq": s["seq"], "kind": "call", "name": s["detail"].rsplit("::", 1)[-1], "args": list(s["vals"]),
                               "loops": list(s["loops"]), "guards": list(s["guards"]), "node": s["node"]})
         items.sort(key=lambda x: x["seq"])
+        if ignore is not None:
+            items = [it for it in items if not ignore(it)]
         self.stripped = None
         if strip_loop is not None:
             # one iteration of the step's main loop: only what is inside that loop, with the loop level removed
